@@ -72,7 +72,7 @@ theorem sortInner_natural (depths keys : List Nat) (g : Nat → Nat) (i : Nat)
         | panic => rfl
         | fuel => rfl
         | ok π2 =>
-          simp only [omap, Out.bind_ok]
+          simp only [Out.bind_ok]
           apply ih (j + 1) π2
           intro x hx
           have e1 : π1 = π.set j pi := by
@@ -299,7 +299,7 @@ theorem placeLens_spec (A : Nat) (f : Nat → Nat) : ∀ (S : List Nat), (∀ s 
   | nil =>
     intro _
     refine ⟨by simp [placeLens], fun x => ?_⟩
-    simp only [List.map_nil, placeLens, List.not_mem_nil, ↓reduceIte]
+    simp only [placeLens, List.not_mem_nil, ↓reduceIte]
     exact replicate_getD A x
   | cons s S ih =>
     intro hlt
@@ -652,7 +652,7 @@ theorem take_eq_placeLens (h d1 : List Nat) (len : Nat) (hin : SimpleIn h d1 len
     rw [h2 x]
     by_cases hx : x < len
     · have e : (d1.take len).getD x 0 = d1.getD x 0 := by
-        simp [List.getD_eq_getElem?_getD, List.getElem?_take, hx]
+        simp [List.getD_eq_getElem?_getD, hx]
       rw [e]
       by_cases hm : x ∈ ascNZ h len 0
       · rw [if_pos hm]
@@ -947,7 +947,8 @@ theorem build_single_roundtrip (histogram : List Nat) (len A : Nat) (tree : List
     (hs : (ascNZ histogram len 0).headD 0 < A) (hA1 : 1 ≤ A) (hA : A ≤ 65536)
     (hsd : (ascNZ histogram len 0).headD 0 < depth.length)
     (hsb : (ascNZ histogram len 0).headD 0 < bits.length) :
-    ∃ sbits, buildAndStoreHuffmanTree histogram len A tree depth bits w
+    ∃ sbits, sbits = bitsOf 4 1 ++ bitsOf (alphabetBits A) ((ascNZ histogram len 0).headD 0) ∧
+      buildAndStoreHuffmanTree histogram len A tree depth bits w
         = .ok (depth.set ((ascNZ histogram len 0).headD 0) 0,
                bits.set ((ascNZ histogram len 0).headD 0) 0, w ++ sbits) ∧
       readPrefixCode A (sbits ++ rest) = some (List.replicate A 0, rest) := by
@@ -970,7 +971,7 @@ theorem build_single_roundtrip (histogram : List Nat) (len A : Nat) (tree : List
   simp only [Out.bind_ok]
   rw [setAt_of_lt depth _ 0 hsd, setAt_of_lt bits _ 0 hsb]
   simp only [Out.bind_ok]
-  refine ⟨bitsOf 4 1 ++ bitsOf (alphabetBits A) ((ascNZ histogram len 0).headD 0), ?_, ?_⟩
+  refine ⟨bitsOf 4 1 ++ bitsOf (alphabetBits A) ((ascNZ histogram len 0).headD 0), rfl, ?_, ?_⟩
   · simp [List.append_assoc]
   · rw [List.append_assoc]
     exact readSingle_spec A _ rest (hbits _ hs)
@@ -1165,7 +1166,8 @@ theorem fast_single_roundtrip (histogram : List Nat) (total A : Nat) (depth bits
     (hscan : fastScan histogram total 0 0 [0, 0, 0, 0] = .ok (count, symbols, length))
     (hc : count ≤ 1) (hs : symbols.getD 0 0 < A) (hA1 : 1 ≤ A) (hA : A ≤ 65536)
     (hsd : symbols.getD 0 0 < depth.length) (hsb : symbols.getD 0 0 < bits.length) :
-    ∃ sbits, buildAndStoreHuffmanTreeFast histogram total (alphabetBits A) depth bits w
+    ∃ sbits, sbits = bitsOf 4 1 ++ bitsOf (alphabetBits A) (symbols.getD 0 0) ∧
+      buildAndStoreHuffmanTreeFast histogram total (alphabetBits A) depth bits w
         = .ok (depth.set (symbols.getD 0 0) 0, bits.set (symbols.getD 0 0) 0, w ++ sbits) ∧
       readPrefixCode A (sbits ++ rest) = some (List.replicate A 0, rest) := by
   obtain ⟨hw56, hbits⟩ := alphabetBits_facts A hA1 hA
@@ -1191,7 +1193,7 @@ theorem fast_single_roundtrip (histogram : List Nat) (total A : Nat) (depth bits
   simp only [Out.bind_ok]
   rw [setAt_of_lt depth _ 0 hsd, setAt_of_lt bits _ 0 hsb]
   simp only [Out.bind_ok]
-  refine ⟨bitsOf 4 1 ++ bitsOf (alphabetBits A) (symbols.getD 0 0), ?_, ?_⟩
+  refine ⟨bitsOf 4 1 ++ bitsOf (alphabetBits A) (symbols.getD 0 0), rfl, ?_, ?_⟩
   · simp [List.append_assoc]
   · rw [List.append_assoc]
     exact readSingle_spec A _ rest (hbits _ hs)
